@@ -3,7 +3,7 @@
    (Model/ValueEq.v) are the functions compared with rsass's answers on every run.
    State after the fixes 5445670 (symmetric Number::eq) and 0a747ec (map equality ignores key order). *)
 From Coq Require Import String List ZArith Bool NArith.
-From RV Require Import Base.F64 Model.Units Model.Numeric Model.ValueEq Proofs.C12.
+From RV Require Import Base.F64 Model.Units Model.Numeric Model.CssStr Model.ValueEq Proofs.C12.
 Import ListNotations.
 Local Open Scope Z_scope.
 
@@ -21,6 +21,12 @@ Print Assumptions C12_refl.
 Theorem C12_refl_number : forall n, f_is_nan (nval n) = false -> num_eqb n n = true.
 Proof. exact num_eqb_refl. Qed.
 Print Assumptions C12_refl_number.
+
+(* strings: CssString equality is symmetric for ALL stored values and quotes (escapes kept in the stored value
+   included: with different quotes both sides are unquoted, with equal quotes the stored values are compared) *)
+Theorem C12_string_eq_sym : forall s t, str_eqb s t = str_eqb t s.
+Proof. exact str_eqb_sym. Qed.
+Print Assumptions C12_string_eq_sym.
 
 (* F17 is fixed: Number::eq is symmetric for ALL pairs of doubles - NaN, infinities, signed zeros,
    subnormals, overflowing differences included *)
@@ -77,9 +83,9 @@ Print Assumptions C12_refuted_trichotomy_unitless.
 
 (* hypotheses are satisfiable; the former F17 witness is now equal in both directions *)
 Example C12_nonvacuous :
-  let a := VList [VNum one true; VStr [97%N] false; VMap [(VStr [98%N] false, VNum below_one true)]] 1 false in
-  let b := VList [VNum below_one true; VStr [97%N] true; VMap [(VStr [98%N] true, VNum one true)]] 1 false in
+  let a := VList [VNum one true; VStr (mkStr [97%N] QNone); VMap [(VStr (mkStr [98%N] QNone), VNum below_one true)]] 1 false in
+  let b := VList [VNum below_one true; VStr (mkStr [97%N] QDouble); VMap [(VStr (mkStr [98%N] QDouble), VNum one true)]] 1 false in
   maps_le1 a = true /\ maps_le1 b = true /\ veq a b = true /\ veq b a = true
   /\ numeric_cmp one below_one = Some (Some Eq) /\ numeric_cmp below_one one = Some (Some Eq)
-  /\ maps_nodup (VMap [(VStr [97%N] false, VNum one true); (VStr [98%N] false, VNum one true)]) = true.
+  /\ maps_nodup (VMap [(VStr (mkStr [97%N] QNone), VNum one true); (VStr (mkStr [98%N] QNone), VNum one true)]) = true.
 Proof. vm_compute. repeat split; reflexivity. Qed.
